@@ -248,13 +248,17 @@ def extract_fn(relpath, qual, ann):
         ed.add(bs + 1, bs + 1, "\n" + ann["head"].rstrip() + "\n", "A1")
     # closures
     for k, ctext in (ann.get("closures") or {}).items():
-        k = int(k)
+        k, want = _closure_key(k)
+        if k < len(it["closures"]) and want is not None and _closure_params(it["closures"][k], src) != want:
+            ed.log.append({"file": relpath, "line": _srcline(src, s0), "rule": "A1", "note": f"closure annotation #{k} not applied: closure #{k} of {qual} has parameters {_closure_params(it['closures'][k], src)}, the annotation was written for {want}"})
+            continue
         if k >= len(it["closures"]):
             # the annotated closure no longer exists (e.g. an `update(|c| ..)` replaced by a plain `save`): nothing to annotate;
             # the function is verified without it and its contract decides
             ed.log.append({"file": relpath, "line": _srcline(src, s0), "rule": "A1", "note": f"closure annotation #{k} not applied: {qual} has only {len(it['closures'])} closures"})
             continue
         c = it["closures"][k]
+        CLOSURE_SEEN.append((qual, k, _closure_params(c, src)))
         if c["ret"] is not None:
             raise Inconclusive(f"closure #{k} of {qual} already has a return type")
         ed.add(c["or2_end"], c["or2_end"], " " + ctext.strip() + " ", "A1")
@@ -488,6 +492,27 @@ def apply_findloops(ed, it, closures, src, ann, qual):
 
 
 
+CLOSURE_SEEN = []   # (qual-or-segment, ordinal, parameter names) of every closure an annotation was applied to (tools/closure_names.py)
+
+
+def _closure_key(k):
+    """`//@closure 3 a,b` -> (3, ['a','b'] or None): the optional list names the parameters the annotated closure has on the tree the
+    annotation was written for; when the closure found at that ordinal has other parameters it is a different closure (ordinals
+    shift when a closure is added or removed before it) and the annotation is NOT applied (logged): the function is verified without it."""
+    parts = str(k).split(None, 1)
+    return int(parts[0]), ([x.strip() for x in parts[1].split(",") if x.strip()] if len(parts) > 1 and parts[1].strip() != "-" else ([] if len(parts) > 1 else None))
+
+
+def _closure_params(c, src):
+    out = []
+    for p in c["params"]:
+        t = src[p["span"][0]:p["span"][1]].decode().strip()
+        t = t.split(":")[0].strip().lstrip("&").strip()
+        t = re.sub(r"^mut\s+", "", t)
+        out.append(t)
+    return out
+
+
 def apply_ref_closure_params(ed, closures, src, ann):
     """R1 (reference patterns): a closure parameter `&name` (pattern destructuring the reference the caller passes) is spelled
     `verif_r_name` with `let name = *verif_r_name;` as first statement of the body - Verus rejects reference patterns in closure
@@ -510,7 +535,7 @@ def apply_ref_closure_params(ed, closures, src, ann):
             if c["body_is_block"]:
                 ed.add(c["body"][0] + 1, c["body"][0] + 1, " " + "".join(binds), None)
             else:
-                already = str(idx) in {str(k) for k in (ann.get("closures") or {})}
+                already = idx in {_closure_key(k)[0] for k in (ann.get("closures") or {})}
                 ed.add(c["body"][0], c["body"][0], ("" if already else "{ ") + "".join(binds), None)
                 if not already:
                     ed.add(c["body"][1], c["body"][1], " }", None)
@@ -1009,10 +1034,14 @@ def extract_segment(relpath, qual, ann):
     seg_closures = [c for c in it.get("closures", []) if inside(c["span"])]
     apply_ref_closure_params(ed, seg_closures, src, ann)
     for k, ctext in (ann.get("closures") or {}).items():
-        k = int(k)
+        k, want = _closure_key(k)
+        if k < len(seg_closures) and want is not None and _closure_params(seg_closures[k], src) != want:
+            ed.log.append({"file": relpath, "line": _srcline(src, s0), "rule": "A1", "note": f"closure annotation #{k} not applied: closure #{k} of the segment of {qual} has parameters {_closure_params(seg_closures[k], src)}, the annotation was written for {want}"})
+            continue
         if k >= len(seg_closures):
             raise Inconclusive(f"anchor lost: closure #{k} of segment of {qual}")
         c = seg_closures[k]
+        CLOSURE_SEEN.append((ann.get("seg_name") or qual, k, _closure_params(c, src)))
         ed.add(c["or2_end"], c["or2_end"], " " + ctext.strip() + " ", "A1")
         if not c["body_is_block"]:
             ed.add(c["body"][0], c["body"][0], "{ ", "A1"); ed.add(c["body"][1], c["body"][1], " }", "A1")
